@@ -79,6 +79,17 @@ fn engine_shard(id: &str, tier: &str, seed: u64, replay: Option<&serde_json::Val
                 out.found.push(f);
             }
         }
+        if id == "C07" && out.found.is_empty() && replay.map(|r| r["replay"]["origin"] == "legacy-fork").unwrap_or(shard.k == 3 % shard.n) {
+            // directories inherited from the pinned release with a re-created client (two children of
+            // one parent): what was served before the upgrade is served after it
+            if let Some(f) = checks_c19::legacy_fork_part("C07", seed, tier == "thorough", &mut out.cov) {
+                if f.signature == "harness-error" {
+                    out.errors.push(f.msg);
+                } else {
+                    out.found.push(f);
+                }
+            }
+        }
         if id == "C18" && replay.is_none() && out.found.is_empty() && shard.k == 8 % shard.n {
             if let Some(f) = checks_e1::lock_held_part(&mut out.cov, "C18") {
                 out.found.push(f);
